@@ -102,6 +102,8 @@ impl ImplState {
         if t.is_empty() { return "bad-op".into(); }
         match t[0] {
             "case" => "ok".into(),
+            // impl.viafen on|off: from here on the implementation builds valid boards through its own FEN reader
+            "impl.viafen" if t.len() == 2 => { VIA_FEN.with(|v| v.set(t[1] == "on")); "ok".into() }
             // ------------------------------------------------------------ C15
             "tt.new" => { self.tt = TranspositionTable::new(); "ok".into() }
             "tt.store" if t.len() == 6 => {
@@ -370,11 +372,12 @@ impl ImplState {
                     while i + 1 < toks.len() { if toks[i] == own { own_time = toks[i + 1].parse().unwrap_or(0); } i += 2; }
                     match self.uci.verif_go_budget(h) {
                         Some((_, Some(tl))) => { let ms = tl.as_millis(); res.push((Some(ms), ms <= own_time as u128 && (own_time == 0 || ms < own_time as u128))); }
-                        Some((_, None)) => res.push((None, true)),
+                        Some((_, None)) => res.push((None, !toks.contains(&own))),
                         None => return "no-go".into(),
                     }
                 }
-                format!("{} {} {}", if res[0].0 == res[1].0 { "same" } else { "differ" }, if res[0].1 { "fits" } else { "exceeds" }, if res[1].1 { "fits" } else { "exceeds" })
+                let word = |r: &(Option<u128>, bool)| if r.1 { "fits" } else if r.0.is_none() { "unlimited" } else { "exceeds" };
+                format!("{} {} {}", if res[0].0 == res[1].0 { "same" } else { "differ" }, word(&res[0]), word(&res[1]))
             }
             _ => "bad-op".into(),
         }
